@@ -392,6 +392,17 @@ func (g *gen) probesFor(pat string) []string {
 	var out []string
 	// the exact candidates first, then a sample of the cross product
 	out = append(out, scheme+"://"+hosts[0]+ports[0])
+	if wild {
+		// arbitrary-subdomain patterns match names of any length: only the length cap of origins.Parse
+		// (maxSchemeLen + 3 + maxHostPortLen + 1 = 327 bytes) stands between them and an over-long origin.
+		// Probes of exactly cap-1 … cap+1 bytes, of cap + len(scheme) (+1) bytes and of 400 bytes, always.
+		const originCap = 64 + 3 + (253 + 1 + 5) + 1
+		for _, total := range []int{originCap - 1, originCap, originCap + 1, originCap + len(scheme), originCap + len(scheme) + 1, 400} {
+			if n := total - len(scheme) - 3 - 1 - len(base) - len(ports[0]); n >= 1 {
+				out = append(out, scheme+"://"+g.longHost(n)+"."+base+ports[0])
+			}
+		}
+	}
 	for k := 0; k < 6; k++ {
 		out = append(out, pick(g, schemes)+"://"+pick(g, hosts)+pick(g, ports))
 	}
